@@ -40,6 +40,26 @@ GEOM_NOTE = ("Trusted: Coq kernel; extraction + float64 shim; harness/driver tra
              "cos/sin of the angles are values supplied by libm (premises).")
 
 CLAIMS = {
+    "C03": dict(
+        engine="geom", design_ref="DESIGN.md section 4 C03",
+        technique="Coq proof over the reals (sums over the loops, double-sum exchange) for the weighting; re-description invariance and cutoff coverage by monitor only (partial)",
+        text="Theorems (reals, every state): -N*score = sum over unordered pairs of distinct copies in the cell + 1/2 sum over "
+             "ordered pairs (copy, image of a copy within 3 shells), the images being exactly the lattice translates of C14; for "
+             "an order-independent pair energy that is half the sum over ordered pairs of distinct molecule images - every pair "
+             "once.  The model is compared with the implementation's score (mostly bit-exact).  Monitored, not proved: equality "
+             "with an independent many-shell lattice sum and equal scores for the same crystal with the origin moved by half "
+             "lattice vectors (uncut potential: up to the measured truncation error).  Known finding D14: fixed 3 shells miss "
+             "in-range image pairs in very flat cells.",
+        note=GEOM_NOTE + "  powi's multiplication order is unspecified: energies are compared within 1e-12 of the magnitude of their terms."),
+    "C13": dict(
+        engine="geom", design_ref="DESIGN.md section 4 C13",
+        technique="Coq proofs over the reals (field/ring/nra) of every clause of the law + model/impl comparison on particle pairs incl. cutoff-straddling distances",
+        text="Theorems (reals): uncut energy = 4 eps ((sigma/r)^12-(sigma/r)^6); with a cutoff, that minus its value at the cutoff "
+             "inside, exactly 0 at and beyond it, continuous there; minimum -eps exactly where (sigma^2/r^2)^3 = 1/2; depends only "
+             "on the distance; invariant under every rigid motion/reflection, parameters kept; symmetric for like particles; "
+             "molecule energy = sum over particle pairs, symmetric for like particles.  Known finding D9 (theorem "
+             "lj_asymmetric_unlike): for unlike particles the energy depends on the order of the pair.",
+        note=GEOM_NOTE),
     "C01": dict(
         engine="geom", design_ref="DESIGN.md section 4 C01",
         technique="Coq proof over the reals for all states and ALL lattice translates in Z^2 (induction-free: loop coverage + a far-image bound) + model/impl comparison + brute-force lattice oracle",
@@ -160,4 +180,4 @@ CLAIMS = {
 
 _NOT_YET = "not claimed yet: the model/theorems/engine for this property are still being built (see DESIGN.md section 7)"
 NOT_APPLICABLE = {p: _NOT_YET for p in
-                  ["C02", "C03", "C08", "C09", "C10", "C11", "C13"]}
+                  ["C02", "C08", "C09", "C10", "C11"]}
